@@ -289,7 +289,7 @@ func init() {
 			if r.Tier == "thorough" {
 				maxN = 1500
 			}
-			r.Rule = fmt.Sprintf("every residue count 0..%d (all remainders mod 70) over printable bytes 33..126 (and, for counts up to 300, over 32..126 with the blank) without '>', every description of <=3 symbols over {a,space,>,|,.}, streams of 1..5 records over a length menu incl. 0/69/70/71/140, LF and CRLF renderings, written as seqio.Fasta and as BasicSequence; descriptions with line breaks (written on one line), the size ladder up to 150000 (quick) / 3000000 (thorough) residues, streams whose second header starts at every offset around the multiples of 4096 up to 65536; every GenBank corpus record and a grid of slices, and generated records with DEFINITIONs of 1..6 lines, converted to FASTA; distinct key = the case; non-trivial = n>=1", maxN)
+			r.Rule = fmt.Sprintf("every residue count 0..%d (all remainders mod 70) over printable bytes 33..126 (and, for counts up to 300, over 32..126 with the blank) without '>', every description of <=3 symbols over {a,space,>,|,.,%,backslash,s}, streams of 1..5 records over a length menu incl. 0/69/70/71/140, LF and CRLF renderings, written as seqio.Fasta and as BasicSequence; descriptions with line breaks (written on one line), the size ladder up to 150000 (quick) / 3000000 (thorough) residues, streams whose second header starts at every offset around the multiples of 4096 up to 65536; every GenBank corpus record and a grid of slices, and generated records with DEFINITIONs of 1..6 lines, converted to FASTA; distinct key = the case; non-trivial = n>=1", maxN)
 			complete := true
 			eval := func(c c17Case, size int, nontriv bool) {
 				r.Evals.Add(1)
@@ -319,7 +319,7 @@ func init() {
 			}
 			r.States.Add(int64(maxN + 1))
 			// descriptions
-			sym := []string{"a", " ", ">", "|", "."}
+			sym := []string{"a", " ", ">", "|", ".", "%", "\\", "s"}
 			var descs []string
 			descs = append(descs, "")
 			for _, a := range sym {
